@@ -43,7 +43,7 @@ Proof.
 Qed.
 
 (* ... but not necessarily on char boundaries: the escape span is one byte long whatever the
-   escaped character (refuted on the unchanged tree: backslash followed by a two-byte character) *)
+   escaped character (the conversion before 62096ac, refuted: backslash followed by a two-byte character) *)
 Lemma from_lexical_splits_char :
   exists len bnd e, len < 2 ^ 32 /\ src_ok len bnd /\ lexical_error_ok len bnd e /\
     ~ Forall (on_bnd bnd) (from_lexical e).
@@ -118,7 +118,7 @@ Proof.
   repeat split; lia.
 Qed.
 
-(* ---- external formats: refuted on the unchanged tree *)
+(* ---- external formats: the conversions before fa9c5c0, refuted *)
 Lemma json_error_span_out_of_range : exists len off, 0 <= off <= len /\ ~ in_range len (json_error_span off).
 Proof. exists 0, 0. split; [lia|]. unfold in_range, json_error_span. cbn. lia. Qed.
 
